@@ -1330,7 +1330,7 @@ func (a *align) Mask(refseq string, start, length int, maskreplace string, nogap
 		for _, seq := range a.seqs {
 			// We do not mask gaps if nogap is true
 			// We do not mask ref character
-			if !(nogap && (seq.sequence[i] == GAP)) && !(noref && (seq.sequence[i] == refchar)) {
+			if !(nogap && (seq.sequence[i] == GAP)) && !(noref && refSequence != nil && (seq.sequence[i] == refchar)) {
 				seq.sequence[i] = rep
 			}
 		}
